@@ -34,7 +34,8 @@ int ghost_nan;      /* quiet_NaN sentinel returned */
 #define GHOST_EXIT(c) (ghost_exit = 1000 + (c))
 
 static Sc LITf(long n, long d) { Sc a = n; Sc b = d; return a / b; }
-#define LIT(n, d) LITf(n, d)
+/* a negative literal is the negation of the positive one (same value; CBMC 6.11's constant folder crashes on negative non-integer rationals) */
+#define LIT(n, d) ((n) < 0 ? -LITf(-(n), (d)) : LITf((n), (d)))
 #define SCAST(x) (x)
 
 static Sc vcos(Sc a) { Sc c = __CPROVER_uninterpreted_cos(a), s = __CPROVER_uninterpreted_sin(a); __CPROVER_assume(c * c + s * s == 1); __CPROVER_assume(a != 0 || (c == 1 && s == 0)); return c; }
